@@ -57,6 +57,11 @@ def run(tier, seed):
         samples = []
         for (rc, o, e), f in zip(res, outs):
             if rc != 0 or not os.path.exists(f):
+                lp = vlib.library_panic(e)
+                if lp:
+                    findings.append("a well-formed segmented stream (shard %d): %s" % (len(samples), lp))
+                    vlib.save_replay(prop, {"stderr": e[-4000:]}, "panic")
+                    continue
                 raise Inconclusive("segments driver failed: " + (e or o)[-1500:])
             d = json.load(open(f))
             cases += d["cases"]
